@@ -119,6 +119,7 @@ def groups(line):
 
 
 CDATA_RNG = None
+WS_RNG = None
 
 
 def ser_xml_like(lines, rng, fmt):
@@ -231,6 +232,10 @@ def doc_vtt(caps, rng, numeric=False):
             # a text line that begins with the word NOTE is cue text (a comment block can only begin outside a cue)
             extra = rng.choice(["NOTE TO VISITORS", "NOTE", "NOTE\tthe bridge is closed"])
             out.append(extra); exp_lines.append(" ".join(extra.split()))
+        if WS_RNG is not None and len(exp_lines) >= 2 and WS_RNG.random() < 0.15:
+            # a line of white space only inside the cue (an empty-looking row): only an EMPTY line ends a cue
+            k_ = len(out) - len(exp_lines) + WS_RNG.randint(1, len(exp_lines) - 1)
+            out.insert(k_, WS_RNG.choice([" ", "\t", "  ", "\u00a0"]))
         out.append("")
         expect.append(exp_lines)
     return "\n".join(out), expect, tagged
@@ -238,8 +243,9 @@ def doc_vtt(caps, rng, numeric=False):
 
 def explore(chk):
     import pycaption
-    global CDATA_RNG
+    global CDATA_RNG, WS_RNG
     CDATA_RNG = chk.sub("dfxp_cdata")
+    WS_RNG = chk.sub("vtt_blank_looking_lines")
     rng = chk.rng
     N = 500 if chk.tier == "quick" else 15000
     b = core.Batch()
